@@ -49,6 +49,17 @@ def infer_resource(facts, cls='tulz::rwp::Resource'):
     unlock_fn = [f for f in methods if calls(f, is_notify)]
     if len(lock_fn) != 1 or len(unlock_fn) != 1: return None, None, None, f'{len(lock_fn)} waiting / {len(unlock_fn)} notifying member functions'
     lock_fn, unlock_fn = lock_fn[0], unlock_fn[0]
+    # the operation is the outermost member function taking the operation type on the way to the wait / the notification: helpers that
+    # do part of the work (a slow path, a hand-over) are evaluated inlined into it
+    def climb(f):
+        for _ in range(4):
+            callers = [m for m in methods if m is not f and any(n.k == 'call' and (n.callee or '') == f.name for n in m.nodes())]
+            cand = [m for m in callers if len(m.d['params']) == 1 and m.d['params'][0]['ctype'].endswith(enum_t.split('::')[-1])]
+            if len(cand) != 1: break
+            f = cand[0]
+        return f
+    lock_fn, unlock_fn = climb(lock_fn), climb(unlock_fn)
+    if lock_fn is unlock_fn: return None, None, None, 'the waiting and the notifying member function are the same'
     qname = qs[0]['name']
     pops = [f for f in methods if any(n.k == 'call' and n.n('object') is not None and n.n('object').is_field(qname, cls) and n.callee_base() in ('pop_front', 'pop_back', 'erase') for n in f.nodes())]
     pushes = [f for f in methods if any(n.k == 'call' and n.n('object') is not None and n.n('object').is_field(qname, cls) and n.callee_base() in ('push_back', 'emplace_back', 'push_front', 'emplace_front', 'insert') for n in f.nodes())]
